@@ -836,7 +836,68 @@ func genParserNTLCollide(seed int64, n int, tier string) []Script {
 	return out
 }
 
+// genParserNilCached: Parse(nil) between Parse calls that work on what an
+// earlier call prepared (GSAP: the suffix array of the whole buffer fill,
+// OSAP: the cached edges; hash parsers: the dictionary). Variant 1: one Write
+// of several blocks, Parse, Parse(nil), Parse, Parse - no Write in between.
+// Variant 2: Write A (k blocks and a rest), Parse k-1 times, Write B,
+// Parse, then Parse(nil) over the block that straddles the end of A.
+func genParserNilCached(seed int64, n int, tier string) []Script {
+	r := rand.New(rand.NewSource(seed))
+	var out []Script
+	for i := 0; i < n; i++ {
+		kind := parserKinds[i%len(parserKinds)]
+		blk := pickInt(r, 8, 16, 32)
+		k := 2 + r.Intn(3)
+		rest := 1 + r.Intn(blk-1)
+		la := k*blk + rest
+		A, _ := genInput(r, la)
+		for len(A) < la {
+			A = append(A, byte('a'+r.Intn(3)))
+		}
+		Bd := relatedInput(r, A, blk+r.Intn(2*blk))
+		for len(Bd) < blk {
+			Bd = append(Bd, byte('a'+r.Intn(3)))
+		}
+		B := la + len(Bd) + r.Intn(40)
+		cfg := map[string]any{"kind": kind, "BufferSize": B, "ShrinkSize": pickInt(r, 0, B/2), "WindowSize": pickInt(r, B, 2*B, 0), "BlockSize": blk}
+		switch kind {
+		case "HP", "BHP":
+			cfg["InputLen"], cfg["HashBits"] = pickInt(r, 2, 3), pickInt(r, 4, 8)
+		case "BUP":
+			cfg["InputLen"], cfg["HashBits"], cfg["BucketSize"] = pickInt(r, 2, 3), pickInt(r, 4, 8), pickInt(r, 2, 4)
+		case "DHP", "BDHP":
+			cfg["InputLen1"], cfg["InputLen2"] = 2, 3+r.Intn(2)
+			cfg["HashBits1"], cfg["HashBits2"] = pickInt(r, 4, 8), pickInt(r, 4, 8)
+		default:
+			cfg["MinMatchLen"] = pickInt(r, 2, 3)
+		}
+		parse := func(fl int) map[string]any { return map[string]any{"op": "parse", "flags": fl, "reuse": true} }
+		nilp := func() map[string]any { return map[string]any{"op": "parsenil", "flags": pickInt(r, 0, 0, 1)} }
+		var ops []map[string]any
+		if i%2 == 0 {
+			ops = append(ops, map[string]any{"op": "write", "p": B2(A)}, parse(0), nilp())
+			for j := 0; j < k+1; j++ {
+				ops = append(ops, parse(pickInt(r, 0, 0, 1)))
+			}
+		} else {
+			ops = append(ops, map[string]any{"op": "write", "p": B2(A)})
+			for j := 0; j < k; j++ {
+				ops = append(ops, parse(0))
+			}
+			ops = append(ops, map[string]any{"op": "write", "p": B2(Bd)}, nilp())
+			for j := 0; j < 4; j++ {
+				ops = append(ops, parse(0))
+			}
+		}
+		out = append(out, Script{Tid: "parser-nilcached-" + itoa(seed) + "-" + itoa(int64(i)), Comp: "parser", Cfg: cfg,
+			Ops: ops, Tags: []string{"go", kind, "nilcached"}})
+	}
+	return out
+}
+
 func init() {
+	generators["parser-nil-cached"] = genParserNilCached
 	generators["parser-ntlcollide"] = genParserNTLCollide
 	generators["parser-alias"] = genParserAlias
 	generators["parser-gsap-big"] = genParserGSAPBig
